@@ -92,7 +92,9 @@ void h_str_compare_bytes(void) {
 
 /* janet_string_equal on two strings with arbitrary cached hashes: = exactly when the cached hashes agree and the bytes are
  * the same ("strings compare by content").  With -DVAL_REALHASH the cached hashes are computed by the real
- * janet_string_calchash over the bytes (the representation invariant), and the law becomes "= exactly when same bytes". */
+ * janet_string_calchash over the bytes (the representation invariant), and the law becomes "= exactly when same bytes"
+ * (probed at length <= 4: 8 min, so no unit is registered for it; "same bytes => same cached hash" is the statement that
+ * janet_string_calchash is a function of (bytes, len)). */
 void h_str_equal_bytes(void) {
   int32_t llen = nd_i32(), rlen = nd_i32();
   __CPROVER_assume(llen >= 0 && llen <= VAL_MAXLEN && rlen >= 0 && rlen <= VAL_MAXLEN);
